@@ -15,6 +15,10 @@ Oracle: vlib/ref/cleanup.py (judge of a pre/post snapshot pair; cross-checked on
   U4 enough removable whole-MiB credit => usage within the limit after the pass
   U5 freed whole MiB minus the largest deleted blob < excess; nothing deleted after the goal was reached (order)
   U0 / U6 usage figures and return values: compared, logged only (the statement is silent on them)
+  U7 finished rows whose file is gone (mutation lose_files: files removed behind the daemon's back, optionally after a restart
+     so that nothing is cached in BlobManager.blobs): their usage has two readings (counted / not counted); U1-U5 are
+     reported only when violated under both, and U7 fires when neither reading satisfies all clauses of the pass (or of all
+     passes of the scenario: one daemon has one accounting)
 
 Fires on the unchanged tree (both are code defects, see the final report of the builder):
   C19/U1/deleted-while-within-limit/content   disk_space_manager.py:51  `a == 0 if not net else avail >= 0` parses as a
@@ -46,14 +50,16 @@ RULE = ('scenario = seeded mix of own / downloaded / network-seeded blobs (0-60 
         'blobs loaded in the BlobManager or not; ownership set by flags, by update_blob_ownership or by a real '
         'create_stream publish; rare shared blobs, own orphans, >=1 MiB sd blobs) x 1-4 passes (clean / _clean(False) / '
         '_clean(True) / cleaning_loop) x content and network limit each in {0, far below, used-1, used, used+1, far above} '
-        'relative to the usage before that pass, optional mutation between passes; plus a fixed catalogue of minimal '
-        'scenarios.  distinct = distinct scenario specification; non-trivial = at least one blob row and one pass')
+        'relative to the usage before that pass, optional mutation between passes (blobs / streams added, ownership flipped, '
+        'two start-ups with the blob directory away and back, blob files removed behind the running daemon after a plain '
+        'restart or without one: oldest / largest / random subset / all); plus a fixed catalogue of minimal scenarios.  distinct = distinct scenario specification; non-trivial = at least one blob row and one pass')
 ASSUMPTIONS = [
     'classes: own = is_mine; content = not own and data/sd blob of a stored stream; network = not own and in no stored stream',
     'the blob_storage_limit is charged with downloaded + own bytes (as the repository integration test expects); 0 = unlimited; '
     'network_storage_limit 0 = no network blobs allowed',
     'whole-MiB accounting: where floor-of-sum / sum-of-floors / sd-blob / double-count readings differ the oracle uses the '
-    'reading that demands least (interval [lo,hi]); usage counts status=finished rows whose file is on disk with the recorded length',
+    'reading that demands least (interval [lo,hi]); a status=finished row whose file is not on disk with the recorded length is '
+    'counted in hi and not in lo, and one of the two readings has to satisfy all clauses of a pass (U7)',
     'U4 is demanded only when blobs that are finished, on disk, not own and (content) attached to a stream with a file row are '
     'worth the excess in whole MiB; blobs of streams without a file row are logged, not demanded',
     'return values of clean()/_clean() and the figures of get_space_used_mb() are compared with the model but only logged (U6, U0): '
@@ -69,6 +75,9 @@ REQUIRED_HITS = [
     'U2.checked_against_declared_ownership', 'remount.with_own_blobs', 'U2.checked_against_ownership_recorded_before_restart', 'in.own', 'in.downloaded', 'in.network', 'in.all_three_classes', 'in.stream_without_file_row', 'in.streaming_only_file_row',
     'in.pending_row', 'in.loaded_in_manager', 'in.real_publish', 'in.ownership_flip', 'in.size.lt_1MiB', 'in.size.eq_1MiB',
     'in.size.1MiB_pm1', 'in.size.eq_2MiB', 'in.age_ties', 'in.empty_store', 'repeat.pass_2plus', 'repeat.same_limits',
+    'mutate.lose_files', 'mutate.lose_files.after_restart', 'in.finished_row_without_file', 'in.finished_row_without_file.not_loaded_in_manager',
+    'U7.checked.content', 'U7.checked.network', 'U7.row_without_file_removed_by_pass.content', 'U7.row_without_file_removed_by_pass.network',
+    'U7.holds_only_if_rows_without_file_are_counted',
 ] + [f'limit.{w}.{c}' for w in ('content', 'network') for c in ('zero', 'far_below', 'minus1', 'equal', 'plus1', 'far_above')]
 MIB = 1 << 20
 LIMS = ['zero', 'far_below', 'minus1', 'equal', 'plus1', 'far_above']
@@ -156,6 +165,26 @@ def fixed_specs():
     S.append({'streams': [{'id': 'ownR', 'kind': 'own', 'how': 'real', 'file': 'saved', 'plain': 2 * MIB + 5},
                           _stream('dl0', 'dl', [MIB, MIB, MIB], t0=10)], 'net': _net([MIB]),
               'passes': [_p('clean', 4, 1), _p('clean', 3, 0)]})
+    # blob files removed behind the running daemon (rows stay 'finished' until the next start-up).  After a restart, so that no blob
+    # object is cached; the rows without a file are neither all older nor all newer than the blobs on disk.  8 MiB on disk, 12 recorded
+    s = _stream('dl0', 'dl', [two] * 6)
+    for b in s['blobs']:
+        b['ld'] = 1
+    S.append({'streams': [s], 'net': [],
+              'passes': [_p('clean', 8, 0, pre={'kind': 'lose_files', 'restart': 1, 'labels': ['dl0.1', 'dl0.5']}),
+                         _p('clean', 'keep', 'keep'), _p('clean', 6, 0)]})
+    # the same for the network class (largest first, then oldest), no restart: 6 MiB on disk, 9 recorded
+    S.append({'streams': [], 'net': _net([two, two, two, MIB, MIB, MIB]),
+              'passes': [_p('network', 0, 6, pre={'kind': 'lose_files', 'restart': 0, 'labels': ['net1', 'net5']}),
+                         _p('clean', 0, 'keep'), _p('clean', 0, 3)]})
+    # the oldest download and the oldest seeded blob lost their files after a restart, limits lowered to what is left on disk
+    S.append({'streams': [_stream('old', 'dl', [two, two], t0=10), _stream('new', 'dl', [two] * 4, t0=500)], 'net': _net([two] * 3),
+              'passes': [_p('clean', 0, 100), _p('clean', 8, 4, pre={'kind': 'lose_files', 'restart': 1, 'labels': ['old.0', 'old.1', 'net0']}),
+                         _p('clean', 'keep', 'keep'), _p('clean', 6, 2)]})
+    # files lost, a pass, then a real start-up sequence (the rows are demoted to pending), further passes
+    S.append({'streams': [_stream('dl0', 'dl', [MIB] * 4)], 'net': _net([MIB, MIB]),
+              'passes': [_p('clean', 3, 1, pre={'kind': 'lose_files', 'restart': 0, 'labels': ['dl0.3', 'net1']}),
+                         _p('clean', 'keep', 'keep', pre={'kind': 'remount'}), _p('clean', 2, 0)]})
     return S
 
 
@@ -235,6 +264,9 @@ def make_spec(r, scale):
                 p['pre'] = {'kind': 'flip', 'sid': r.choice(streams)['id'], 'to': r.randrange(2)}
         if p['pre'] is None and r.random() < .12:
             p['pre'] = {'kind': 'remount'}
+        if p['pre'] is None and r.random() < .13:
+            p['pre'] = {'kind': 'lose_files', 'restart': int(r.random() < .5), 'mode': r.choice(['random'] * 5 + ['oldest'] * 2 + ['largest', 'all']),
+                        'frac': r.choice([.15, .3, .5, .8]), 'sd': int(r.random() < .15), 'seed': r.getrandbits(32)}
         passes.append(p)
     return {'streams': streams, 'net': net, 'passes': passes}
 
@@ -385,6 +417,23 @@ async def add_stream(env, s):
         env.listed_by[h] = env.listed_by.get(h, 0) + 1
     if own:
         env.published.update(mine_hashes)
+
+
+def pick_lost(env, snap, m):
+    """which blob files disappear: finished rows whose file is there now, named by label or drawn from the mutation's own seed"""
+    ix = ref.Index(snap)
+    by_label = {env.labels.get(h, h[:8]): h for h, x in ix.info.items() if x['finished'] and x['on_disk']}
+    if 'labels' in m:
+        return [by_label[lab] for lab in m['labels'] if lab in by_label]
+    cand = [h for lab, h in sorted(by_label.items()) if m['sd'] or not ix.info[h]['is_sd']]
+    if m['mode'] == 'all':
+        return cand
+    if m['mode'] in ('oldest', 'largest'):
+        foreign = [h for h in cand if not ix.info[h]['own']]
+        foreign.sort(key=lambda h: (ix.info[h]['added_on'], ix.info[h]['len']) if m['mode'] == 'oldest' else (-ix.info[h]['len'], ix.info[h]['added_on']))
+        return foreign[:max(1, int(len(foreign) * m['frac']))]
+    r = random.Random(m['seed'])
+    return [h for h in cand if r.random() < m['frac']]
 
 
 def resolve(cls, use, pick_hi, prev):
@@ -544,6 +593,8 @@ async def _run(rec, case, spec):
                          'passes': [[p['op'], p['c'], p['n']] for p in spec['passes']]})
         prev = (0, 0)
         name = lambda h: env.labels.get(h, h[:8])  # noqa
+        # U7 over the passes of the scenario, per storage class
+        one_reading = {c: {'counted': None, 'not_counted': None, 'reported': False} for c in ('content', 'network')}
         for pi, p in enumerate(spec['passes']):
             if p.get('pre'):
                 m = p['pre']
@@ -578,6 +629,20 @@ async def _run(rec, case, spec):
                         rec.log('remount.finished_blob_not_finished_again')
                     if env.own_at_restart:
                         rec.hit('remount.with_own_blobs')
+                elif m['kind'] == 'lose_files':
+                    # blob files disappear behind the running daemon (disk tidied by hand, partial restore): the rows stay 'finished' until
+                    # the next start-up.  restart=1: a plain restart first, so that no blob object is cached in BlobManager.blobs
+                    if m['restart']:
+                        bm.stop()
+                        await bm.setup()
+                        rec.hit('mutate.lose_files.after_restart')
+                    victims = pick_lost(env, snapshot(env), m)
+                    for h in victims:
+                        os.remove(os.path.join(env.blob_dir, h))
+                    if victims:
+                        rec.hit('in.finished_row_without_file')
+                    if any(h not in bm.blobs for h in victims):
+                        rec.hit('in.finished_row_without_file.not_loaded_in_manager')
             cur = snapshot(env)
             use = ref.Index(cur).usage()
             climit = resolve(p['c'], use['content'], p['hi'], prev[0])
@@ -646,6 +711,12 @@ async def _run(rec, case, spec):
                     rec.log('U6.return_differs_from_deleted_count')
                 if res['deleted']:
                     rec.hit('pass.deleted_something')
+                orc = one_reading['network' if x['is_net'] else 'content']
+                for fld, lst in (('counted', res.get('only_if_counted')), ('not_counted', res.get('only_if_not_counted'))):
+                    if lst and orc[fld] is None:
+                        orc[fld] = {'pass_index': pi, 'key': lst[0][0], 'what': lst[0][1], 'limits': list(x['lims']), 'state_before': brief(env, x['pre'])}
+                if any(key.startswith('C19/U7/') for key, _, _ in res['violations']):
+                    orc['reported'] = True
                 for key, what, details in res['violations']:
                     rec.violation(key, f"{what} | limits blob_storage_limit={x['lims'][0]} network_storage_limit={x['lims'][1]}"
                                        f" | state before: {brief(env, x['pre'])}",
@@ -658,6 +729,16 @@ async def _run(rec, case, spec):
                 rec.log('U6.clean_returned_value')
             elif p['op'] in ('clean', 'loop'):
                 rec.log('U6.clean_returns_None')
+            for c, orc in one_reading.items():
+                if orc['counted'] and orc['not_counted'] and not orc['reported']:
+                    orc['reported'] = True
+                    a, b = orc['counted'], orc['not_counted']
+                    rec.violation(f"C19/U7/no-reading-of-rows-without-file-holds-over-the-passes/{ref.short_key(a['key'])}-if-counted+"
+                                  f"{ref.short_key(b['key'])}-if-not/{c}",
+                                  f"finished rows whose file is gone: no single reading of their usage satisfies the statement over the {c} passes of "
+                                  f"this scenario.  Counted as stored, pass {a['pass_index']} (limits {a['limits']}): {a['what']}  ||  Not counted "
+                                  f"(bytes on disk only), pass {b['pass_index']} (limits {b['limits']}): {b['what']}",
+                                  {'if_counted': a, 'if_not_counted': b, 'spec': spec if len(json.dumps(spec)) < 6000 else 'see case (seeded)'})
             # U0 (logged): the real usage figures against the model interval
             after = snapshot(env)
             u = ref.Index(after).usage()
